@@ -31,6 +31,38 @@ def rnd(r, bound):
     return int.from_bytes(r.bytes(40), "big") % bound
 
 
+LIMBS = [0, 1, 2**63, 2**64 - 1]
+
+
+def limb_scalars(r=None, full=False):
+    """256-bit scalars built from limb values {0, 1, 2^63, 2^64-1}: single-limb-only, zero limb in the
+    middle, zero low limb, ... (a zero limb BELOW the top non-zero limb is what word-skipping loops get wrong)"""
+    out = []
+    if full:
+        for a in LIMBS:
+            for b in LIMBS:
+                for c in LIMBS:
+                    for d in LIMBS:
+                        out.append(a | (b << 64) | (c << 128) | (d << 192))
+        return [k for k in out]
+    one = lambda i, v: v << (64 * i)
+    for i in range(4):
+        for v in (1, 2**63, 2**64 - 1, 5):
+            out.append(one(i, v))                                   # single limb only (zero limbs below it)
+    out += [one(3, 1) | 1, one(2, 1) | 1, one(3, 5) | one(1, 7), one(3, 2**63) | one(0, 2**64 - 1),        # zero limbs in the middle
+            one(3, 1) | one(2, 1), one(3, 2**64 - 1) | one(2, 2**64 - 1), one(2, 3) | one(1, 2**63),      # zero low limb(s)
+            one(1, 1) | one(0, 1), one(3, 1) | one(1, 1), one(2, 2**64 - 1) | one(0, 1)]
+    return out
+
+
+def limb_class(k):
+    nz = [(k >> (64 * i)) & (2**64 - 1) != 0 for i in range(4)]
+    top = max([i for i in range(4) if nz[i]], default=-1)
+    if top < 0: return "zero"
+    holes = [i for i in range(top) if not nz[i]]
+    return "limbs:" + ("nohole" if not holes else ("hole-low" if 0 in holes and len(holes) == top else ("hole-mid" if 0 not in holes else "holes")))
+
+
 FP_EDGE = [0, 1, 2, P - 1, P - 2, (P - 1) // 2, (P + 1) // 2, 2**255, 2**64 - 1, 2**192]
 
 
@@ -122,6 +154,8 @@ def gen_diff(ctx):
             add("fp12 %s %s %s" % (op, elem(r, pa), elem(r, pb)), "fp12:%s:%s" % (op, "sparse" if Z4 in (pa[:4], pa[4:8], pb[:4], pb[4:8]) else "dense"))
     for k in [0, 1, 2, 3, 5, 0x80, 0xffff, rnd(r, 2**24)] + ([rnd(r, 2**64), N - 2] if thorough else [rnd(r, 2**40)]):
         add("fp12 pow %s %x" % (elem(r, R4 * 3), k), "fp12:pow:%s" % ("k<4" if k < 4 else "k=%dbit" % k.bit_length()))
+    for k in [2**64] + ([5 * 2**64, 2**128 + 1, 2**192] if thorough else []):
+        add("fp12 pow %s %x" % (elem(r, R4 * 3), k), "fp12:pow:" + limb_class(k))
     for i in range(16 if not thorough else 60):
         pl = [r.choice(pats2) for _ in range(3)]
         add("fp12 linemul %s %s %s %s" % (elem(r, r.choice(pats12)), elem(r, pl[0]), elem(r, pl[1]), elem(r, pl[2])),
@@ -169,6 +203,12 @@ def gen_diff(ctx):
         add("law gtpow %s %s" % (h64(rnd(r, N - 1)), h64(rnd(r, N - 1))), "law:gtpow")
     for i in range(4 if not thorough else 20):
         add("law frob %s %s" % (elem(r, R4 * 3), elem(r, r.choice(pats12))), "law:frobenius-hom")
+    ls = [k for k in limb_scalars() if 0 < k < N - 1]
+    for k in (ls if thorough else ls[:16] + [ls[i] for i in range(16, len(ls), 2)]):
+        add("law powsplit %s" % h64(k), "law:powsplit:" + limb_class(k))
+    for k in [2**64, 2**128, 2**192, 5 * 2**64, 2**192 + 1, (2**64 - 1) << 64]:
+        add("law gtpow %s %s" % (h64(k), h64(r.choice([1, 3, 2**64 + 1]))), "law:gtpow:" + limb_class(k))
+        add("law bilin %s %s" % (h64(k), h64(r.choice([1, 1, 2**64]))), "law:bilin:" + limb_class(k))
     for ks in [1, 2, N - 1, KS_STD, rnd(r, N)]:
         add("law keyext %s %s" % (h64(ks), core.hexs(r.bytes(r.range(1, 40)))), "law:keyext")
     return cases
@@ -235,6 +275,13 @@ def gen_groups(ctx):
         cls = "edge" if k in ks[:21] else "rand"
         cases.append(("g1 mulgen " + h64(k), "g1:mulgen:" + cls, e))
         cases.append(("g1 mulP1 " + h64(k), "g1:mul:" + cls, e))
+    Pl = G1.mulp(rnd(r, N), ref.P1)
+    for k in limb_scalars(full=True):
+        e = ref.g1_hex(G1.mulp(k % N, ref.P1))
+        cases.append(("g1 mulgen " + h64(k), "g1:mulgen:" + limb_class(k), e))
+        cases.append(("g1 mulP1 " + h64(k), "g1:mul:" + limb_class(k), e))
+    for k in limb_scalars():
+        cases.append(("g1 mul %s %s" % (h64(k), ref.g1_hex(Pl)), "g1:mul:point:" + limb_class(k), ref.g1_hex(G1.mulp(k % N, Pl))))
     # the last additions of the generator multiplication near N: accumulator = +-addend
     for t in range(1, 130 if not thorough else 1100):
         k = N - t
@@ -270,6 +317,10 @@ def gen_groups(ctx):
     for k in k2:
         cases.append(("g2 mulgen " + h64(k), "g2:mulgen:" + ("edge" if k in k2[:8] else "rand"), ref.g2_hex(G2.mulp(k % N, ref.P2))))
     q = [G2.mulp(rnd(r, N), ref.P2) for _ in range(4)]
+    for k in (limb_scalars(full=True) if thorough else limb_scalars()):
+        cases.append(("g2 mulgen " + h64(k), "g2:mulgen:" + limb_class(k), ref.g2_hex(G2.mulp(k % N, ref.P2))))
+    for k in limb_scalars()[::3]:
+        cases.append(("g2 mul %s %s" % (h64(k), ref.g2_hex(q[0])), "g2:mul:point:" + limb_class(k), ref.g2_hex(G2.mulp(k % N, q[0]))))
     for i in range(len(q) - 1):
         A, B = q[i], q[i + 1]
         k = rnd(r, N)
@@ -356,6 +407,12 @@ def gen_scheme(ctx):
     cases.append(("sign %s %s %s %s %s" % (h64(KS_STD), "416c696365", "6d7367", "ff" * 32 + le32(N) + ent(), bits(4, 104 * 8)),
                   "sign:entropy:redraw", chk_sign(3)))
     cases.append(("sign %s %s %s %s -" % (h64(KS_STD), "416c696365", "6d7367", le32(N - 2) + ent()), "sign:entropy:r=N-2", chk_sign(1)))
+    # drawn r with zero 64-bit limbs (below the top limb, in the middle, single limb)
+    for k in [2**64, 2**128, 2**192, 5 * 2**64, 2**192 + 1, (2**64 - 1) << 128, (2**63 << 192) | (2**64 - 1), 7 << 128 | 3]:
+        cases.append(("sign %s %s %s %s -" % (h64(KS_STD), "416c696365", "6d7367", le32(k) + r.bytes(32).hex()),
+                      "sign:entropy:r-" + limb_class(k), chk_sign(1)))
+        cases.append(("enc %s 426f62 %s %s -" % (h64(KE_STD), r.bytes(17).hex(), le32(k) + r.bytes(32).hex()),
+                      "enc:entropy:r-" + limb_class(k), chk_enc))
     # hand-built signatures: h out of range or on the boundary must be rejected, not crash
     s_pt = ref.g1_hex(ref.G1.mulp(rnd(r, N), ref.P1))
     rej = lambda a: None if a in ("0", "-1") else "crafted signature not rejected cleanly: " + a[:60]
@@ -409,6 +466,10 @@ def run_exchange(ctx, impl_exe):
         a, b = ids[i % 2]
         for j in range(2):                      # two runs that differ only in the entropy served
             lines.append("exch %s %s %s %s %s %d" % (h64(ke), core.hexs(a), core.hexs(b), r.bytes(64).hex(), r.bytes(64).hex(), [16, 48][i % 2]))
+    for ka, kb in [(2**64, 2**128 + 5), (2**192, 3 << 64), ((2**64 - 1) << 128, 2**64 | (1 << 192)), (5 * 2**64, 2**128)]:
+        for j in range(2):      # pairs again: the second run swaps the two ephemerals (still different entropy)
+            x, y = (ka, kb) if j == 0 else (kb, ka)
+            lines.append("exch %s %s %s %s %s 32" % (h64(KX_STD), "416c696365", "426f62", le32(x) + r.bytes(32).hex(), le32(y) + r.bytes(32).hex()))
     out, err = core.run_lines(impl_exe, lines, shards=1)
     kv = lambda s: dict(x.split("=", 1) for x in s.split(" ") if "=" in x)
     for i in range(0, len(lines), 2):
